@@ -219,6 +219,17 @@ def _traversal(case, provider):
         got = a.walk(nm.lower(), select=sel)
         if len(got) != len(want) or any(x is not y for x, y in zip(got, want)):
             raise Bad("C20.walk", "walk-name-and-select-differs", nm)
+
+        def only_for_that_kind(c):       # a predicate written for the requested kind (lambda e: e.DTSTART ...) is asked about no other
+            if c.name != nm:
+                raise RuntimeError(f"predicate for {nm} asked about a {c.name}")
+            return "SUMMARY" in c
+        try:
+            got = a.walk(nm, select=only_for_that_kind)
+        except RuntimeError as e:
+            raise Bad("C20.walk", "walk-name-and-select-asks-the-predicate-about-other-components", str(e))
+        if len(got) != len(want) or any(x is not y for x, y in zip(got, want)):
+            raise Bad("C20.walk", "walk-name-and-select-differs", nm)
     if isinstance(a, Calendar):
         for attr, nm in (("events", "VEVENT"), ("todos", "VTODO"), ("timezones", "VTIMEZONE")):
             want = [c for c in pre if c.name == nm]
